@@ -49,9 +49,9 @@ REMOVERS = {}       # name -> index of the child argument among the call's argum
 
 
 def find_removers(repo):
-    """the recursive unlisting helper of `remove`, whatever it is called and wherever it lives (module function `f(parent, child)` or
-    method `parent.f(child)`): a function that calls itself, does `<parent>._children.remove(<child parameter>)` and refreshes the views of
-    the collection it unlisted from.  Contract (checked as E1 of the helper itself): it unlists at most the given child and leaves the
+    """the unlisting helper of `remove`, whatever it is called and wherever it lives (module function `f(parent, child)` or method
+    `parent.f(child)`; searching the tree itself or through a search helper): a function that does
+    `<collection>._children.remove(<child parameter>)` and refreshes the views of the collection it unlisted from.  Contract (checked as E1 of the helper itself): it unlists at most the given child and leaves the
     child's parent link to the caller."""
     REMOVERS.clear()
     found = []
@@ -65,7 +65,7 @@ def find_removers(repo):
         rec = any(isinstance(c, ast.Call) and ((isinstance(c.func, ast.Name) and c.func.id == fn.name) or (isinstance(c.func, ast.Attribute) and c.func.attr == fn.name))
                   for c in ast.walk(fn))
         refresh = any(isinstance(c, ast.Call) and isinstance(c.func, ast.Attribute) and c.func.attr == "_update_src_and_sens" for c in ast.walk(fn))
-        if child and rec and refresh and fn.name not in ("remove", "add"):
+        if child and refresh and fn.name not in ("remove", "add") and not any(d for d in fn.decorator_list):
             idx = params.index(child) - (1 if cl is not None else 0)
             REMOVERS[fn.name] = idx
             found.append((m, qn, fn))
